@@ -99,14 +99,21 @@ def file_inventory(path, acc=None, files=None):
     return acc, files
 
 
-def relocated_report(names):
-    """Load by name from a relocated copy in a fresh interpreter."""
+def relocated_report(names, c_locale=False):
+    """Load by name from a relocated copy in a fresh interpreter (optionally
+    one whose default text encoding is ASCII: the C locale, UTF-8 mode and
+    locale coercion off -- what a data file with a stray non-ASCII character
+    meets on such a system)."""
     tmp = tempfile.mkdtemp(prefix='vmon_reloc_')
     try:
         dst = os.path.join(tmp, 'elsewhere', 'data_copy')
         shutil.copytree(libs.data_dir(), dst)
         env = dict(os.environ)
         env['pgradd_DATA_DIR'] = dst
+        if c_locale:
+            env.update({'LC_ALL': 'C', 'LANG': 'C', 'PYTHONUTF8': '0',
+                        'PYTHONCOERCECLOCALE': '0'})
+            env.pop('PYTHONIOENCODING', None)
         p = subprocess.run(
             [sys.executable, '-X', 'faulthandler', '-W', 'ignore', '-m',
              'vmon.core.reloc_child'] + list(names),
@@ -190,6 +197,17 @@ def check_locations(ctx, name):
         ctx.violation('relocated copy loads different contents / fails',
                       case, {'by_name': da, 'relocated': dc})
         return
+    rep_c, _, err_c = relocated_report([name], c_locale=True)
+    ctx.evals()
+    if rep_c is None or rep_c['digests'].get(name) != da:
+        ctx.violation('relocated copy does not load (or loads other '
+                      'contents) in a process whose default text encoding '
+                      'is ASCII (C locale)', case,
+                      {'stderr': (err_c or '')[-600:],
+                       'digest': None if rep_c is None
+                       else rep_c['digests'].get(name)})
+        return
+    ctx.count('relocated_loads_under_the_C_locale')
     # the scheme alone, loaded by name: here, by path, and relocated
     from pgradd.GroupAdd.Scheme import GroupAdditivityScheme
     s1 = observe(GroupAdditivityScheme.Load, name)
